@@ -261,9 +261,6 @@ Proof.
   - rewrite <- Hlen. apply IH; assumption.
 Qed.
 
-Definition result_of (errs : list fluent_error) : result unit (list fluent_error) :=
-  match errs with [] => Ok tt | _ => Err errs end.
-
 Lemma add_resource_refines (b : bundle) (s : smap) r :
   abs F b = lift F s ->
   exists b',
@@ -497,8 +494,7 @@ Theorem run_inv ops b : run F ops = Done b -> inv b.
 Proof. intros H. eapply inv_of_abs; [apply run_refines, H | apply spec_ok]. Qed.
 
 (* ---------------- dup_errors, declaratively ---------------- *)
-Definition seen_after (seen : list bytes) (es : list entry) : list bytes :=
-  fold_left (fun sn kd => if bmem (fst kd) sn then sn else sn ++ [fst kd]) (defs_of F es) seen.
+Notation seen_after := (seen_after F).
 
 Lemma dup_errors_app es1 : forall seen es2,
   dup_errors F seen (es1 ++ es2) = dup_errors F seen es1 ++ dup_errors F (seen_after seen es1) es2.
@@ -521,6 +517,16 @@ Proof.
     + rewrite bmem_app. cbn. rewrite orb_false_r, orb_assoc. reflexivity.
 Qed.
 
+Lemma defs_of_app es1 es2 : defs_of F (es1 ++ es2) = defs_of F es1 ++ defs_of F es2.
+Proof.
+  induction es1 as [|x es1 IH]; cbn; [reflexivity|].
+  destruct (def_of F x); cbn; rewrite IH; reflexivity.
+Qed.
+
+Lemma seen_after_app seen es1 es2 :
+  seen_after seen (es1 ++ es2) = seen_after (seen_after seen es1) es2.
+Proof. unfold seen_after. rewrite defs_of_app, fold_left_app. reflexivity. Qed.
+
 (* the entry at any position is reported iff its id is already a key or occurs earlier in
    the same resource; nothing else is reported *)
 Theorem dup_errors_exact seen pre e post id d :
@@ -533,9 +539,7 @@ Proof.
   intros Hd. rewrite dup_errors_app. f_equal.
   change (e :: post) with ([e] ++ post). rewrite dup_errors_app. f_equal.
   - cbn. rewrite Hd, seen_after_mem. destruct (_ || _); reflexivity.
-  - f_equal. unfold seen_after. rewrite <- fold_left_app. f_equal.
-    clear. induction pre as [|x pre IH]; cbn; [destruct (def_of F e); reflexivity|].
-    destruct (def_of F x); cbn; rewrite IH; reflexivity.
+  - rewrite seen_after_app. reflexivity.
 Qed.
 
 Lemma dup_errors_junk seen pre e post :
